@@ -1,5 +1,5 @@
 #!/usr/bin/env python3
-"""Write meta.json for the round-4 to -10 seeded changes from RESULTS.tsv (run after tools/run_seeded.sh)."""
+"""Write meta.json for the round-4 to -11 seeded changes from RESULTS.tsv (run after tools/run_seeded.sh)."""
 import json, os, collections
 V = "/verif/seeded"
 DESC = {
@@ -141,6 +141,28 @@ DESC = {
               "a per-run combos override whose choice list repeats a value ([2, 5, 2]): XYZError, 0 rows appended"),
  "S-C16-10": ("gen_cluster_script, single mode: explicit batch_ids equal to (1..num_batches) are 'simplified' to crop.missing_results()",
               "single-mode script for all batches in ascending order while some already have results: those are not re-grown"),
+ "S-C01-11": ("combo_runner_core reduces an int shuffle seed modulo 2**32 and re-binds `shuffle` to the result",
+              "an int seed that is a non-zero multiple of 2**32: settings are shuffled but the re-sort is skipped, results in wrong slots"),
+ "S-C04-11": ("grow() loads the crop's function through an lru_cache keyed on the function file's path",
+              "within one process, a crop at the same name and directory sown again with another function after the first was grown: the second crop is evaluated with the first function"),
+ "S-C05-11": ("Harvester.add_ds casts a merged float variable back to the stored integer dtype when it has no missing values",
+              "all-integer results on a complete grid, then a harvest contributing a non-integer value that completes the grid again: 10.5 is stored as 10"),
+ "S-C06-11": ("Crop.load_info caches the settings on the Crop object and never invalidates them",
+              "the same Crop object (any farmer) sown a second time with other combos after a complete first cycle: the second reap labels the new results with the first sow's grid"),
+ "S-C08-11": ("sow_combos / sow_cases wipe all results when the num_batches= they are given differs from the crop's (capped) number",
+              "num_batches larger than the number of cases, some batches grown, identical re-sow: every result deleted although the batch count is unchanged"),
+ "S-C09-11": ("Crop.all_nan_result memoised in a module-level dict keyed on the crop's location",
+              "in one process, a crop partially reaped, later another crop with another result structure sown at the same name and directory and partially reaped: placeholders of the first crop's shape"),
+ "S-C10-11": ("Harvester.add_ds re-loads the data file only when nothing is held in memory (the edit of S-C05-3 / S-C06-3, written against C10)",
+              "a harvester holding data when its crop is sown, more data merged into the file afterwards, the driver killed, recovery reaps through the crop rebuilt from disk: the pickled stale snapshot overwrites what was merged in between"),
+ "S-C11-11": ("write_to_disk: if os.replace fails and the final file exists, fall back to copyfile onto it",
+              "the same batch grown twice, the second grower's rename fails with an OSError, a reader arrives while the in-place copy is under way: empty / partial result under the final name"),
+ "S-C12-11": ("Reaper._load treats an existing zero-byte result file like a missing batch (placeholder)",
+              "allow_incomplete reap with an empty result file that is not the first one listed: no error, the batch silently becomes nan, with clean_up=True the crop is deleted"),
+ "S-C15-11": ("Crop.reap_samples skips add_df when the table's last len(df) rows equal the reaped frame",
+              "a crop run whose reaped rows are identical to the last n rows already in the table: 0 rows appended instead of n"),
+ "S-C16-11": ("gen_cluster_script raises in array mode when crop.is_ready_to_reap()",
+              "explicit batch_ids on a fully grown (not yet reaped) crop, array mode: XYZError instead of a script that re-grows those ids"),
 }
 rows = collections.defaultdict(dict)
 own = {}
@@ -181,7 +203,7 @@ for sid, (change, needs) in DESC.items():
                    "'the hard round: the subtlest violation you can construct that is still clearly inside the property' "
                    "(one data type or shape, a sequence of >= 3 calls, two rarely combined options, an arithmetic "
                    "relation between sizes, dictionary / listing order, a plausible-looking wrong result), and a "
-                   "scratch worktree of /repo (no access to /verif)") if sid.split("-")[2] in ("7", "8", "9", "10") else
+                   "scratch worktree of /repo (no access to /verif)") if sid.split("-")[2] in ("7", "8", "9", "10", "11") else
                   ("independent sub-agent given only the property text, the ideas used in rounds 1-4, a request for a "
                    "change that leaves every sequential fault-free use correct and breaks the property only in one "
                    "crash window / interleaving / I-O error (with a focus area), and a scratch worktree of /repo "
